@@ -92,10 +92,11 @@ func scenC11(x *Exec) {
 		name string
 		val  int
 		gap  int
+		late bool // the timestamp is far behind: no bucket takes it any more, yet drop-raw withholds it all the same
 	}
 	var pts []pt
 	for i := 0; i < p.N; i++ {
-		pts = append(pts, pt{names[g.Pick(len(names))], 1 + g.Intn(9), []int{0, 0, 0, 50, 400, 1100}[g.Pick(6)]})
+		pts = append(pts, pt{names[g.Pick(len(names))], 1 + g.Intn(9), []int{0, 0, 0, 50, 400, 1100}[g.Pick(6)], g.Bool(0.12)})
 		if i < 10 {
 			p.Lines = append(p.Lines, fmt.Sprintf("%s %d", pts[i].name, pts[i].val))
 		}
@@ -138,6 +139,10 @@ func scenC11(x *Exec) {
 				simrt.Sleep(time.Duration(pnt.gap) * time.Millisecond)
 			}
 			ts := uint32(time.Now().Unix())
+			if pnt.late {
+				ts -= uint32(wait + 2*iv + 5)
+				s.Probe("c11.late_point")
+			}
 			line := fmt.Sprintf("%s %d %d", pnt.name, pnt.val, ts)
 			v := RefDispatch(&p.Table, []byte(line), nil)
 			bt.T.Dispatch([]byte(line))
@@ -148,6 +153,9 @@ func scenC11(x *Exec) {
 			}
 			for k, ai := range v.AggIn {
 				wantAggIn[ai]++
+				if pnt.late {
+					continue // counted as input (and as too old), part of no aggregate
+				}
 				q := uint(ts) - uint(ts)%iv
 				bk := bkey{ai, v.AggKeys[k], q}
 				contrib[bk] = append(contrib[bk], float64(pnt.val))
